@@ -316,6 +316,82 @@ func (c *Ctx) goClose(rule string, launcher *ast.BlockStmt, ltype *ast.FuncType,
 			}
 		}
 		if closer == nil {
+			// the closing goroutine written as a named function: `go closeWhenDone(&wg, ch)` whose
+			// body waits on its WaitGroup parameter and then closes its channel parameter on every path
+			named := false
+			for _, s := range sites {
+				if s.launcher != launcher || s.lit != nil {
+					continue
+				}
+				g := calleeOf(info, s.stmt.Call)
+				gi := c.FuncOfObj(g)
+				if g == nil || gi == nil || gi.Decl.Body == nil {
+					continue
+				}
+				ginfo := gi.Pkg.TypesInfo
+				var chParam types.Object
+				for i, a := range s.stmt.Call.Args {
+					if identObj(info, a) == ch {
+						chParam = paramObj(ginfo, gi.Decl, i)
+					}
+				}
+				if chParam == nil {
+					continue
+				}
+				isCloseP := func(n ast.Node) bool {
+					var call *ast.CallExpr
+					switch x := n.(type) {
+					case *ast.ExprStmt:
+						call, _ = x.X.(*ast.CallExpr)
+					case *ast.DeferStmt:
+						call = x.Call
+					}
+					if call == nil {
+						return false
+					}
+					id, ok := call.Fun.(*ast.Ident)
+					return ok && id.Name == "close" && len(call.Args) == 1 && identObj(ginfo, call.Args[0]) == chParam
+				}
+				res := mustPassFromEntry(c.cfgOf(ginfo, gi.Decl.Body), isCloseP)
+				if !res.ok {
+					continue
+				}
+				// waits before closing (first Wait precedes the first close)
+				waited, closePos := false, token.NoPos
+				ast.Inspect(gi.Decl.Body, func(n ast.Node) bool {
+					if call, ok := n.(*ast.CallExpr); ok {
+						if o := methodCallOn(ginfo, call, "Wait"); o != nil && isWaitGroup(o.Type()) && closePos == token.NoPos {
+							waited = true
+						}
+						if id, ok := call.Fun.(*ast.Ident); ok && id.Name == "close" && closePos == token.NoPos {
+							closePos = call.Pos()
+						}
+					}
+					return true
+				})
+				workers := false
+				for _, s2 := range sites {
+					if s2.launcher != launcher || s2.lit == nil {
+						continue
+					}
+					ast.Inspect(s2.lit.Body, func(n ast.Node) bool {
+						if snd, ok := n.(*ast.SendStmt); ok && identObj(info, snd.Chan) == ch {
+							workers = true
+						}
+						return true
+					})
+				}
+				if workers && !waited {
+					c.Violation(rule, key, s.stmt.Pos(), "channel "+ch.Name()+" is closed by "+g.Name()+" without waiting for the workers that send on it: send on closed channel").Clause = clause
+				} else {
+					c.OK(rule, key, s.stmt.Pos(), "closed on every path of "+g.Name()+", launched as a goroutine"+map[bool]string{true: ", after Wait()", false: ""}[workers])
+				}
+				named = true
+				break
+			}
+			if named {
+				continue
+			}
 			c.Violation(rule, key, pos, "channel "+ch.Name()+" is consumed by a range but no goroutine of "+fnName+" closes it: the consumer never terminates").Clause = clause
 			continue
 		}
@@ -920,6 +996,15 @@ func (c *Ctx) goWGCount(rule string, s *goSite, clause string) {
 		if bound == "" {
 			c.Undecided(rule, key, add.Pos(), "launching loop is not of the form `for i := 0; i < N; i++`: cannot compare the number of goroutines with "+w.Name()+".Add("+argK+")")
 			continue
+		}
+		// `for i := 0; i < n; i++` runs max(n, 0) times: Add(max(n, 0)) is the exact count
+		if cl, ok := unparen(add.Args[0]).(*ast.CallExpr); ok && len(cl.Args) == 2 {
+			if id, ok := unparen(cl.Fun).(*ast.Ident); ok && id.Name == "max" {
+				a0, a1 := c.canon(info, cl.Args[0], nil), c.canon(info, cl.Args[1], nil)
+				if a1 == "0" && a0 == bound || a0 == "0" && a1 == bound {
+					argK = bound
+				}
+			}
 		}
 		c.Check(bound == argK, rule, key, add.Pos(), fmt.Sprintf("Add(%s) matches the %s goroutines launched", argK, bound), fmt.Sprintf("%s.Add(%s) but the loop launches %s goroutines that each call Done once: when the two differ %s.Wait() never returns (or returns early)", w.Name(), argK, bound, w.Name())).Clause = clause
 	}
